@@ -181,6 +181,51 @@ theorem hasDerivAt_theta (x y amp xo yo sx sy theta : ℝ) (hsx : sx ≠ 0) (hsy
   exact (hasDerivAt_G_theta x y amp xo yo sx sy theta).congr_deriv
     (dmdtheta_eq_canon x y amp xo yo sx sy theta hsx hsy)
 
+/-! ### The amplitude derivative at `amp = 0`
+
+  `model/amp` is 0/0 at `amp = 0`; a source that special-cases it (`if amp == 0: dmds = <unit
+  Gaussian>`) is regenerated as two definitions, `dmds` (the branch for `amp ≠ 0`) and `dmds0`
+  (the branch for `amp = 0`), and the flag `dmdsZero` (1 when the source has the special case). -/
+
+/-- the regenerated `amp == 0` branch is the canonical derivative `exp(E)` too (for every `amp`,
+    since it does not depend on it) -/
+theorem dmds0_eq_canon (x y amp xo yo sx sy th : ℝ) :
+    D_amp x y amp xo yo sx sy th = dmds0 x y amp xo yo sx sy th := by
+  first
+  | (simp only [dmds0, r_add, r_sub, r_mul, r_div, r_neg, r_radians, R.real_sin, R.real_cos, R.real_exp,
+      R.real_npow, R.real_ofNat, R.real_ofSci, R.real_pi, Nat.cast_ofNat, Nat.cast_one]
+     rw [gauss_eq_canon]
+     unfold D_amp G
+     ring)
+  | (simp only [dmds0]; exact Aegean.C04Hand.dmds0Hand_eq_canon x y amp xo yo sx sy th)
+
+open Classical in
+/-- what the (regenerated) code computes for the amplitude entry: the special case when the source
+    has one and `amp = 0`, otherwise `model/amp` -/
+noncomputable def dmdsCode (x y amp xo yo sx sy theta : ℝ) : ℝ :=
+  if dmdsZero x y amp xo yo sx sy theta = 1 ∧ amp = 0 then dmds0 x y amp xo yo sx sy theta
+  else dmds x y amp xo yo sx sy theta
+
+/-- for `amp ≠ 0` nothing changes: the code's amplitude entry is the derivative (as before) -/
+theorem hasDerivAt_amp_code (x y amp xo yo sx sy theta : ℝ) (hamp : amp ≠ 0) :
+    HasDerivAt (fun v => gauss x y v xo yo sx sy theta) (dmdsCode x y amp xo yo sx sy theta) amp := by
+  have : dmdsCode x y amp xo yo sx sy theta = dmds x y amp xo yo sx sy theta := by
+    unfold dmdsCode; rw [if_neg (fun h => hamp h.2)]
+  rw [this]; exact hasDerivAt_amp x y amp xo yo sx sy theta hamp
+
+/-- **hasDerivAt_amp_everywhere**: when the source special-cases `amp == 0` (regenerated flag), the
+    amplitude entry is the true derivative for EVERY amplitude, zero included — no hypothesis on
+    `amp`, `sx`, `sy` at all (a strictly stronger statement than `hasDerivAt_amp`) -/
+theorem hasDerivAt_amp_everywhere (x y amp xo yo sx sy theta : ℝ)
+    (hz : dmdsZero x y amp xo yo sx sy theta = 1) :
+    HasDerivAt (fun v => gauss x y v xo yo sx sy theta) (dmdsCode x y amp xo yo sx sy theta) amp := by
+  by_cases hamp : amp = 0
+  · have : dmdsCode x y amp xo yo sx sy theta = dmds0 x y amp xo yo sx sy theta := by
+      unfold dmdsCode; rw [if_pos ⟨hz, hamp⟩]
+    rw [this, fun_gauss_eq (fun v => gauss_eq_canon x y v xo yo sx sy theta)]
+    exact (hasDerivAt_G_amp x y amp xo yo sx sy theta).congr_deriv (dmds0_eq_canon x y amp xo yo sx sy theta)
+  · exact hasDerivAt_amp_code x y amp xo yo sx sy theta hamp
+
 /-! ### Every free parameter of every component -/
 
 /-- for each of the six parameters `p` of a component `c`, the Jacobian entry for `p` is the
